@@ -614,6 +614,8 @@ func (m *Model) Apply(o *Op, h *Hints, wall int64) Resp {
 			}
 		}
 		return Resp{Code: "OK"}
+	case "Shutdown":
+		return Resp{Code: "OK"}
 	case "GenToken":
 		if tbl() == nil {
 			return errResp("NotFound", "no table")
